@@ -53,10 +53,9 @@ theorem tcFuncs_ok {P : Prog} : ∀ (l : List FuncDef) (recs : Recs), tcFuncs P 
       simp at hi
       exact (ih rest hrest j fd hi).mono (fun x hx => List.mem_append_right _ hx)
 
-theorem tcMethods_ok {P : Prog} {c : Nat} {base : Option Nat} : ∀ (l : List (Nat × FuncDef)) (recs : Recs),
-    tcMethods P c base l = .ok recs → ∀ m fd, (m, fd) ∈ l →
-      FuncOK P recs (some c) fd ∧
-      ∀ b k0 fd0, base = some b → lookupMeth P b m = some (k0, fd0) → overrideOk P fd fd0 = true := by
+theorem tcMethods_ok {P : Prog} {c : Nat} {tail : List Nat} : ∀ (l : List (Nat × FuncDef)) (recs : Recs),
+    tcMethods P c tail l = .ok recs → ∀ m fd, (m, fd) ∈ l →
+      FuncOK P recs (some c) fd ∧ overrideCheck P tail m fd = true := by
   intro l
   induction l with
   | nil => intro recs _ m fd h; simp at h
@@ -69,10 +68,7 @@ theorem tcMethods_ok {P : Prog} {c : Nat} {base : Option Nat} : ∀ (l : List (N
     subst hr
     simp at hm
     rcases hm with ⟨rfl, rfl⟩ | hm
-    · refine ⟨(tcFunc_ok hrs).mono (fun x hx => List.mem_append_left _ hx), ?_⟩
-      intro b k0 fd1 hb hl
-      subst hb
-      simpa [overrideCheck, hl] using hu
+    · exact ⟨(tcFunc_ok hrs).mono (fun x hx => List.mem_append_left _ hx), hu⟩
     · obtain ⟨h1, h2⟩ := ih rest hrest m fd hm
       exact ⟨h1.mono (fun x hx => List.mem_append_right _ hx), h2⟩
 
@@ -80,25 +76,30 @@ theorem tcMethods_ok {P : Prog} {c : Nat} {base : Option Nat} : ∀ (l : List (N
 structure ClassTyped (P : Prog) (tm : Recs) (c : Nat) (cd : ClassDef) : Prop where
   init : ∃ recs, tcInit P c cd.init.params cd.init.assigns = .ok recs ∧ ∀ x ∈ recs, x ∈ tm
   meth : ∀ m fd, (m, fd) ∈ cd.methods → FuncOK P tm (some c) fd
-  over : ∀ m fd b k0 fd0, (m, fd) ∈ cd.methods → cd.base = some b → lookupMeth P b m = some (k0, fd0) →
-    overrideOk P fd fd0 = true
+  /-- own methods against every definition in `mro[1:]` -/
+  over : ∀ m fd, (m, fd) ∈ cd.methods → overrideCheck P (cd.mro.drop 1) m fd = true
+  /-- names the class does not define: first definer against the later ones (multiple inheritance) -/
+  mi : ∀ m, m ∈ methNames P (cd.mro.drop 1) → miMethOk P cd.methods (cd.mro.drop 1) m = true
 
 theorem ClassTyped.mono {P : Prog} {tm tm' : Recs} {c : Nat} {cd : ClassDef} (h : ClassTyped P tm c cd)
     (hs : ∀ x ∈ tm, x ∈ tm') : ClassTyped P tm' c cd := by
-  obtain ⟨⟨r, h1, h2⟩, hm, ho⟩ := h
-  exact ⟨⟨r, h1, fun x hx => hs x (h2 x hx)⟩, fun m fd h => (hm m fd h).mono hs, ho⟩
+  obtain ⟨⟨r, h1, h2⟩, hm, ho, hmi⟩ := h
+  exact ⟨⟨r, h1, fun x hx => hs x (h2 x hx)⟩, fun m fd h => (hm m fd h).mono hs, ho, hmi⟩
 
 theorem tcClass_ok {P : Prog} {c : Nat} {cd : ClassDef} {recs : Recs} (h : tcClass P c cd = .ok recs) :
     ClassTyped P recs c cd := by
   unfold tcClass at h
-  simp only [bind_ok, pure_ok] at h
-  obtain ⟨_, _, r1, h1, r2, h2, hr⟩ := h
+  simp only [bind_ok, pure_ok, req_ok] at h
+  obtain ⟨_, _, _, hmi, _, _, r1, h1, r2, h2, hr⟩ := h
   subst hr
-  refine ⟨⟨r1, h1, fun x hx => List.mem_append_left _ hx⟩, ?_, ?_⟩
+  refine ⟨⟨r1, h1, fun x hx => List.mem_append_left _ hx⟩, ?_, ?_, ?_⟩
   · intro m fd hm
     exact (tcMethods_ok _ _ h2 m fd hm).1.mono (fun x hx => List.mem_append_right _ hx)
-  · intro m fd b k0 fd0 hm hb hl
-    exact (tcMethods_ok _ _ h2 m fd hm).2 b k0 fd0 hb hl
+  · intro m fd hm
+    exact (tcMethods_ok _ _ h2 m fd hm).2
+  · intro m hm
+    simp only [List.all_eq_true] at hmi
+    exact hmi m hm
 
 theorem tcClasses_ok {P : Prog} : ∀ (l : List ClassDef) (c0 : Nat) (recs : Recs), tcClasses P c0 l = .ok recs →
     ∀ (i : Nat) (cd : ClassDef), l[i]? = some cd → ClassTyped P recs (c0 + i) cd := by
@@ -181,39 +182,136 @@ theorem overrideOk_sem {P : Prog} (w : WF P) {sub sup : FuncDef} (h : overrideOk
   simp only [overrideOk, Bool.and_eq_true] at h
   exact ⟨fun _ _ x => argsFit_sound w h.1 x, fun _ _ x => subTy_sound w h.2 x⟩
 
-theorem dispatch {P : Prog} {tm : Recs} (t : Typed P tm) : ∀ (c d m k0 : Nat) (fd0 : FuncDef), isSub P c d = true →
-    lookupMeth P d m = some (k0, fd0) →
+theorem mem_definers {P : Prog} {m : Nat} : ∀ {l : List Nat} {k : Nat} {fd : FuncDef},
+    (k, fd) ∈ definers P m l ↔ k ∈ l ∧ ownMeth P k m = some fd := by
+  intro l
+  induction l with
+  | nil => intro k fd; simp [definers]
+  | cons k0 r ih =>
+    intro k fd
+    simp only [definers]
+    cases ho : ownMeth P k0 m with
+    | none =>
+      rw [ih]
+      constructor
+      · rintro ⟨h1, h2⟩; exact ⟨List.mem_cons_of_mem _ h1, h2⟩
+      · rintro ⟨h1, h2⟩
+        simp at h1
+        rcases h1 with rfl | h1
+        · rw [ho] at h2; cases h2
+        · exact ⟨h1, h2⟩
+    | some fd0 =>
+      simp only [List.mem_cons, Prod.mk.injEq]
+      rw [ih]
+      constructor
+      · rintro (⟨rfl, rfl⟩ | ⟨h1, h2⟩)
+        · exact ⟨Or.inl rfl, ho⟩
+        · exact ⟨Or.inr h1, h2⟩
+      · rintro ⟨h1 | h1, h2⟩
+        · subst h1; rw [ho] at h2; cases h2; exact Or.inl ⟨rfl, rfl⟩
+        · exact Or.inr ⟨h1, h2⟩
+
+theorem findMeth_definers {P : Prog} {m : Nat} : ∀ (l : List Nat), findMeth P m l = (definers P m l).head? := by
+  intro l
+  induction l with
+  | nil => rfl
+  | cons k r ih =>
+    simp only [findMeth, definers]
+    cases ownMeth P k m with
+    | none => exact ih
+    | some fd => rfl
+
+theorem methNames_mem {P : Prog} {m k : Nat} {fd : FuncDef} {l : List Nat} (hk : k ∈ l) (ho : ownMeth P k m = some fd) :
+    m ∈ methNames P l := by
+  unfold methNames
+  rw [List.mem_flatten]
+  unfold ownMeth at ho
+  cases hkc : P.classes[k]? with
+  | none => simp [hkc] at ho
+  | some kd =>
+    simp [hkc] at ho
+    refine ⟨kd.methods.map (·.1), List.mem_map.mpr ⟨k, hk, by simp [hkc]⟩, ?_⟩
+    exact List.mem_map.mpr ⟨(m, fd), lookup_mem ho, rfl⟩
+
+/-- dynamic dispatch: the method found along the MRO of the runtime class `c` is compatible with the one the
+    checker found from the static class `d` — by the override check of the defining class or the
+    multiple-inheritance compatibility check of `c` -/
+theorem dispatch {P : Prog} {tm : Recs} (t : Typed P tm) (c d m k0 : Nat) (fd0 : FuncDef) (hs : isSub P c d = true)
+    (hl : lookupMeth P d m = some (k0, fd0)) :
     ∃ k fd, lookupMeth P c m = some (k, fd) ∧ isSub P c k = true ∧ ownMeth P k m = some fd ∧ SemCompat P fd fd0 := by
-  intro c
-  induction c using Nat.strongRecOn with
-  | _ c ih =>
-    intro d m k0 fd0 hs hl
-    have w := t.wf
-    rw [isSub_iff] at hs
-    cases hc : P.classes[c]? with
-    | none => simp [mroOf_none hc] at hs
-    | some cd =>
-      have self_case : lookupMeth P c m = some (k0, fd0) →
-          ∃ k fd, lookupMeth P c m = some (k, fd) ∧ isSub P c k = true ∧ ownMeth P k m = some fd ∧ SemCompat P fd fd0 := by
-        intro hl
-        obtain ⟨hk, ho⟩ := findMeth_some_mem _ _ _ hl
-        exact ⟨k0, fd0, hl, isSub_iff.mpr hk, ho, SemCompat.refl _ _⟩
-      rcases mro_unfold w hc with ⟨_, e⟩ | ⟨b, hb, hlt, e⟩
-      · rw [e] at hs; simp at hs; subst hs; exact self_case hl
-      · rw [e] at hs; simp at hs
-        rcases hs with rfl | hs
-        · exact self_case hl
-        · obtain ⟨k', fd', hl', hsub', hown', hcomp'⟩ := ih b hlt d m k0 fd0 (isSub_iff.mpr hs) hl
-          rw [lookupMeth_unfold w hc, hb]
-          cases ho : ownMeth P c m with
-          | some fdc =>
-            refine ⟨c, fdc, rfl, isSub_refl w hc, ho, ?_⟩
-            have hmem : (m, fdc) ∈ cd.methods := by
-              unfold ownMeth at ho; rw [hc] at ho; exact lookup_mem ho
-            exact (overrideOk_sem w ((t.cls c cd hc).over m fdc b k' fd' hmem hb hl')).trans hcomp'
-          | none =>
-            refine ⟨k', fd', hl', ?_, hown', hcomp'⟩
-            rw [isSub_iff, e]
-            exact List.mem_cons_of_mem _ (isSub_iff.mp hsub')
+  have w := t.wf
+  rw [isSub_iff] at hs
+  obtain ⟨hk0d, hown0⟩ := findMeth_some_mem _ _ _ hl
+  have hk0c : k0 ∈ mroOf P c := (mro_closed w hs).2 k0 hk0d
+  cases hc : P.classes[c]? with
+  | none => simp [mroOf_none hc] at hs
+  | some cd =>
+    obtain ⟨tail, htail⟩ := mro_head w hc
+    have hdrop : cd.mro.drop 1 = tail := by rw [← mroOf_eq hc, htail]; rfl
+    have ct := t.cls c cd hc
+    -- a definer that is an ancestor of another definer was checked by that class's own override check
+    have anc : ∀ k fd, ownMeth P k m = some fd → k0 ∈ mroOf P k → SemCompat P fd fd0 := by
+      intro k fd hown hk0k
+      by_cases hkk : k0 = k
+      · subst hkk; rw [hown0] at hown; cases hown; exact SemCompat.refl _ _
+      · obtain ⟨kd, hkc⟩ : ∃ kd, P.classes[k]? = some kd := by
+          cases hkc : P.classes[k]? with
+          | none => simp [ownMeth, hkc] at hown
+          | some kd => exact ⟨kd, rfl⟩
+        obtain ⟨tk, htk⟩ := mro_head w hkc
+        have hdk : kd.mro.drop 1 = tk := by rw [← mroOf_eq hkc, htk]; rfl
+        have hmem : (m, fd) ∈ kd.methods := by
+          unfold ownMeth at hown; rw [hkc] at hown; exact lookup_mem hown
+        have ho := (t.cls k kd hkc).over m fd hmem
+        rw [hdk] at ho
+        simp only [overrideCheck, List.all_eq_true] at ho
+        have hk0t : k0 ∈ tk := by
+          rw [htk] at hk0k; simp at hk0k
+          rcases hk0k with h | h
+          · exact absurd h hkk
+          · exact h
+        exact overrideOk_sem w (ho (k0, fd0) (mem_definers.mpr ⟨hk0t, hown0⟩))
+    unfold lookupMeth
+    rw [htail]
+    simp only [findMeth]
+    cases ho : ownMeth P c m with
+    | some fdc =>
+      refine ⟨c, fdc, rfl, isSub_refl w hc, ho, ?_⟩
+      exact anc c fdc ho hk0c
+    | none =>
+      simp only
+      have hk0t : k0 ∈ tail := by
+        rw [htail] at hk0c; simp at hk0c
+        rcases hk0c with h | h
+        · subst h; rw [ho] at hown0; cases hown0
+        · exact h
+      have hin : (k0, fd0) ∈ definers P m tail := mem_definers.mpr ⟨hk0t, hown0⟩
+      rw [findMeth_definers]
+      cases hdef : definers P m tail with
+      | nil => rw [hdef] at hin; simp at hin
+      | cons p rest =>
+        obtain ⟨k, fd⟩ := p
+        have hkin : (k, fd) ∈ definers P m tail := by rw [hdef]; simp
+        obtain ⟨hkt, hkown⟩ := mem_definers.mp hkin
+        have hkc : isSub P c k = true := by rw [isSub_iff, htail]; exact List.mem_cons_of_mem _ hkt
+        refine ⟨k, fd, rfl, hkc, hkown, ?_⟩
+        rw [hdef] at hin
+        simp only [List.mem_cons, Prod.mk.injEq] at hin
+        rcases hin with ⟨rfl, rfl⟩ | hin
+        · exact SemCompat.refl _ _
+        · -- k0 is a later definer: multiple-inheritance check of c, or k0 is an ancestor of k
+          have hmi := ct.mi m (by rw [hdrop]; exact methNames_mem hk0t hown0)
+          rw [hdrop] at hmi
+          simp only [miMethOk, Bool.or_eq_true] at hmi
+          rcases hmi with hmi | hmi
+          · -- c defines m itself: impossible here
+            unfold ownMeth at ho; rw [hc] at ho
+            simp only at ho
+            rw [ho] at hmi; simp at hmi
+          · rw [hdef] at hmi
+            simp only [List.all_eq_true, Bool.or_eq_true] at hmi
+            rcases hmi (k0, fd0) hin with h1 | h1
+            · exact anc k fd hkown (isSub_iff.mp h1)
+            · exact overrideOk_sem w h1
 
 end Lang
